@@ -326,6 +326,7 @@ func init() {
 			r := newRwRT(c)
 			c.guard("DET.MAPRANGE", func() { ruleDetScan(c) })
 			c.guard("RW.FILEPASSES", r.ruleFilePasses)
+			c.guard("RW.ALLFILES", r.ruleAllFiles)
 			c.guard("DET.GENSYM", r.ruleGensym)
 			c.guard("DET.TMP", r.ruleTmpDir)
 			c.guard("RW.TMPL.RANGE", r.ruleTmplRange)
@@ -356,6 +357,7 @@ func init() {
 			c.guard("GEN.TAG", r.ruleGoGen)
 			c.guard("DET.TMP", r.ruleTmpDir)
 			c.guard("OPT.ORDER", r.ruleOptOrder)
+			c.guard("RW.ALLFILES", r.ruleAllFiles)
 			c.guard("GEN.ENV", r.ruleGenEnv)
 			c.keep(func(o Obligation) bool {
 				switch o.Rule {
